@@ -552,6 +552,26 @@ impl<D: DagLike, S: SharingTracker<D>> Iterator for PostOrderIter<D, S> {
             // Look at the current top item on the stack. If nothing, we are done.
             let mut current = self.stack.pop()?;
             if !current.processed {
+                // The item may have been yielded since it was pushed (this is a DAG, and with
+                // key-based sharing two distinct nodes may share a key). Then its children
+                // must not be visited again: they could be yielded although nothing that is
+                // yielded refers to them. Just point the parent at the yielded item.
+                if let Some(seen_index) = self.tracker.seen_before(&current.elem) {
+                    let stack_len = self.stack.len();
+                    match current.previous {
+                        Previous::Root => {}
+                        Previous::ParentLeft => {
+                            self.stack[stack_len - 1].left_idx = Some(seen_index);
+                        }
+                        Previous::ParentRight => {
+                            self.stack[stack_len - 1].right_idx = Some(seen_index);
+                        }
+                        Previous::SiblingLeft => {
+                            self.stack[stack_len - 2].left_idx = Some(seen_index);
+                        }
+                    }
+                    continue;
+                }
                 current.processed = true;
                 // When we first encounter an item, it is completely unknown; it is
                 // nominally the next item to be yielded, but it might have children,
